@@ -312,8 +312,11 @@ impl<BS: BlockSizes> Clone for SimCipher<BS> {
 
 impl<BS: BlockSizes> SimCipher<BS> {
     pub fn with_tag(key: &[u8], tag: u8) -> Self {
+        // constructors that take key *bytes* build their own cipher; the instance made here is then
+        // unused, so a slice of another length (C13's wrong-length constructions) is tolerated
         let mut k = [0u8; 8];
-        k.copy_from_slice(&key[..8]);
+        let n = key.len().min(8);
+        k[..n].copy_from_slice(&key[..n]);
         SimCipher {
             key: k,
             tag,
